@@ -293,7 +293,15 @@ def analyse_unit(unit, res, report, unit_path):
                                     "clause": clause, "obligation": "%s.%s.%s[%s]" % (unit, fn_name_of_item(it), kind, clause),
                                     "text": d["text"], "src_lines": it["src_lines"]})
         else:
-            out["other"].append({"unit": unit, "kind": kind, "clause": clause, "text": d["text"], "where": kinds})
+            # lemma / spec region: the nearest preceding `//#props Cxx,Cyy` marker (if any) names the properties it carries
+            lprops = None
+            if d["primary"]:
+                for j in range(min(d["primary"], len(lines)) - 1, -1, -1):
+                    mm = re.match(r"\s*//#props\s+(.*)$", lines[j])
+                    if mm:
+                        lprops = [x.strip() for x in mm.group(1).split(",") if x.strip()]
+                        break
+            out["other"].append({"unit": unit, "kind": kind, "clause": clause, "text": d["text"], "where": kinds, "props": lprops})
     out["canaries_failed"] = len(seen_canary)
     return out
 
@@ -387,6 +395,8 @@ def run_property(prop, tier, seed, replay, t0):
         if an["other"]:
             # failure in a lemma / prelude region of the template: attribute to the property only via the unit
             for o in an["other"]:
+                if o.get("props") is not None and prop not in o["props"]:
+                    continue
                 failures.append({"unit": u, "item": "(lemma/spec region)", "file": "contracts/%s.vrs" % u, "props": [prop], "kind": o["kind"],
                                  "clause": o["clause"], "obligation": "%s.lemma.%s[%s]" % (u, o["kind"], o["clause"]), "text": o["text"], "src_lines": None})
         for f in an["failures"]:
